@@ -120,7 +120,8 @@ def r1_text_panic(c, facts):
             a0 = t['args'][0].get('ty', '')
             if re.match(r'&(mut )?(str|std::string::String|String)\b', a0):
                 nstr += 1
-                sinks.setdefault((fn.qname, 'index' if info['def'].endswith(('::index', '::index_mut')) else info['def'].split('::')[-1]), []).append(t['ln'])
+                # a new private helper with a single caller counts as that caller (`apply_change` split off Workspace::change)
+                sinks.setdefault((facts.home(fn).qname, 'index' if info['def'].endswith(('::index', '::index_mut')) else info['def'].split('::')[-1]), []).append(t['ln'])
                 ids = ids | {fn.id}
     c.analysed['string_index_sites_outside_the_text_domain'] = nstr
     seen_rows = 0
